@@ -260,7 +260,7 @@ def h_alias__reach(v0: OB, v1: OB, w: Leaf, mut: int):
 
 def h_roundtrip(v0: OB, v1: OB, n: int):
     """id is stable under a JSON write/read round trip (tuple -> list, key order, spelling)"""
-    assert (-9 <= n <= 99 if tier() == "quick" else -1000 <= n <= 1000) and (v1 is None or tier() != "quick")
+    assert (-9 <= n <= 99 if tier() == "quick" else -99 <= n <= 999) and (v1 is None or tier() != "quick")
     fresh_path()
     sp = {"b": (v0, [v1, {"z": 'é"\\', "f": 1.5}]), "a": {"y": n, "x": v0}}
     text = json.dumps(sp)
@@ -278,7 +278,7 @@ HARNESSES = [
     dict(name="h_distinct", twin="h_distinct__reach", timeout=(300, 900), parts=(5, 5)),
     dict(name="h_keys", timeout=(300, 900)),
     dict(name="h_alias", twin="h_alias__reach", timeout=(300, 900), parts=(5, 5)),
-    dict(name="h_roundtrip", timeout=(300, 900)),
+    dict(name="h_roundtrip", timeout=(300, 3000)),
 ]
 
 GOLDEN = [
